@@ -375,6 +375,27 @@ def step (w : W) (o : Op) : W × String :=
           match Addr.decodeBytes (fun _ => true) net (o.bytes "str") with
           | some sc => "=> " ++ hexD sc
           | none => "=> x")
+  | "q.depositaddr" =>
+    -- the DepositAddress query (x/bitcoin/keeper/query.go): `DecodeEthAddress` (hexutil: 0x prefix, even number of hex
+    -- digits, 20 bytes), the builder of the requested version for the current relayer key, the address string on regtest
+    let e := o.str "evm"
+    let evm? : Option Bytes :=
+      if (e.startsWith "0x" || e.startsWith "0X") && e.length > 2 then
+        (fromHexAux (e.toList.drop 2) []).bind (fun b => if b.length == 20 then some b else none)
+      else none
+    (w, match evm? with
+      | none => "=> err"
+      | some evm =>
+        let pk := w.btc.pubkey
+        if o.nat "version" == 0 then
+          match Bitcoin.depositOutputV0 bc pk evm with
+          | some sc => s!"=> ok addr={Addr.encodeSegwit "bcrt" (if sc.head! == 0x51 then 1 else 0) (sc.drop 2)} opret=-"
+          | none => "=> err"
+        else if o.nat "version" == 1 then
+          match Bitcoin.depositOutputsV1 bc pk w.btc.params.magic evm with
+          | some (o0, o1) => s!"=> ok addr={Addr.encodeSegwit "bcrt" 0 (o0.drop 2)} opret={toHex o1}"
+          | none => "=> err"
+        else "=> err")
   | "lock.validateparams" =>
     let p : LockingParams.RawParams :=
       { unlockDuration := o.int "unlock", exitingDuration := o.int "exit", downtimeJail := o.int "jail", maxValidators := o.int "maxvals",
